@@ -131,10 +131,11 @@ static void cs_program (sb_t *out, int kind, int ns, int np) {
   /* S = "g++;"  P = "g=g;"   the body is placed according to `kind` */
   sb_reset (out);
   sb_puts (out, "int g;\n");
-  if (kind == 4) {              /* global initialisers: code goes to the initialiser block, appended after the functions */
-    sb_puts (out, "int f() { return g; }\n");
-    for (int i = 0; i < ns; i++) sb_printf (out, "int v%d = g + %d;\n", i, i & 127);
-    for (int i = 0; i < np; i++) sb_printf (out, "int w%d = g;\n", i);
+  if (kind == 4) {              /* one global initialiser: its code goes to the initialiser block, which is appended after the functions */
+    sb_puts (out, "int f() { return g; }\nint v = (");
+    for (int i = 0; i < ns; i++) sb_puts (out, (i & 15) == 15 ? "g++,\n" : "g++,");
+    for (int i = 0; i < np; i++) sb_puts (out, "g=g,");
+    sb_puts (out, "1);\n");
     return;
   }
   if (kind == 3) {              /* two functions: the second one starts in the upper half */
